@@ -7,7 +7,7 @@ From AhrsModel Require Import Effects.
 From AhrsGen Require Import C19effects.
 From AhrsProps Require Import C19_analysis.
 Import ListNotations.
-Open Scope string_scope.
+
 
 (* "no public callable mutates" REFUTED on this tree: every recorded mutator is a public, non-exempt callable of the
    regenerated table whose computed may-mutate set (restricted to caller arrays) is not empty *)
@@ -17,14 +17,14 @@ Theorem C19_public_pure_refuted :
     exists f, nth_error names f = Some n /\ public f = true /\ exempt f = false /\ is_mutator f = true.
 Proof.
   split; [discriminate|].
-  assert (H : forallb (fun n => existsb (fun f => (if string_dec (name_of f) n then true else false) && Nat.ltb f (length names)
+  assert (H : forallb (fun n => existsb (fun f => (if string_dec (name_of f) n then true else false) && Nat.ltb f (List.length names)
                                                 && public f && negb (exempt f) && is_mutator f) all_ids) expected_mutators = true)
     by (vm_compute; reflexivity).
   intros n Hn. rewrite forallb_forall in H. specialize (H n Hn). apply existsb_exists in H as [f [_ Hf]].
   repeat (apply andb_prop in Hf as [Hf ?]). exists f.
   destruct (string_dec (name_of f) n) as [E|]; [|discriminate].
   repeat split; auto.
-  - unfold name_of, nthd in E. apply Nat.ltb_lt in H3. rewrite (nth_error_nth' names "?" H3). now rewrite E.
+  - unfold name_of, nthd in E. apply Nat.ltb_lt in H3. rewrite (nth_error_nth' names "?"%string H3). now rewrite E.
   - now apply negb_true_iff.
 Qed.
 Print Assumptions C19_public_pure_refuted.
